@@ -480,6 +480,22 @@ class CallMixin:
             s.frames[fid].update(fr)
             name = c.qualname
             n = self.callsite_ordinal(s, name)
+            # universally quantified specification variables of the callee (`free=`): instantiated by the caller's contract
+            # (`ghost_args`), otherwise with arbitrary fresh symbols -- either way an instance of the universal statement
+            gargs = (self.cur.extra.get("ghost_args", {}) if self.cur is not None else {}).get("%s#%d" % (name, n), {})
+            if fn is not None or c.path.startswith("iface"):
+                for gname, ghint in c.extra.get("free", {}).items():
+                    if gname in s.frames[fid]:
+                        continue
+                    if gname in gargs:
+                        saved_parent = s.frames[fid]["$parent"]
+                        s.frames[fid]["$parent"] = self.root_fid
+                        try:
+                            s.frames[fid][gname] = self.spec_value(s, gargs[gname], fid, s.heap0, None, {})
+                        finally:
+                            s.frames[fid]["$parent"] = saved_parent
+                    else:
+                        s.frames[fid][gname] = self.sym(s, "free_" + gname, ghint)
             # ghost outputs of the callee (existential witnesses): fresh at the call site
             for gname, ghint in c.extra.get("ghosts", {}).items():
                 s.frames[fid][gname] = self.sym(s, "gh_" + gname, ghint)
@@ -488,6 +504,12 @@ class CallMixin:
                 for gname, gsrc in self.cur.extra.get("snapshots", {}).get("%s#%d" % (name, n), []):
                     gv = self.spec_value(s, gsrc, fid, s.heap0, None, {})
                     s.frames[self.root_fid][gname] = gv
+            # ghost permission the caller's contract demands at this call site
+            if self.cur is not None:
+                tok = self.cur.extra.get("call_tokens", {}).get("%s#%d" % (name, n))
+                if tok:
+                    g = self.spec_eval(s, tok, self.root_fid, s.heap0, s.entry_frame, {})
+                    self.emit(s, "token@%s#%d" % (name, n), g, "token", c.props)
             # preconditions
             for label, src, props in c.requires:
                 g = self.spec_eval(s, src, fid, s.heap0, None, {})
